@@ -275,7 +275,7 @@ def run_case(case, tier):
         ev1 = JEvent("write_to_disk", trace, case["seed"], sc["jitter"])
         ev2 = JEvent("write_finished", trace, case["seed"] + 1, sc["jitter"])
         dc.write_to_disk, dc.write_finished = ev1, ev2
-        end = _time.time() + 3
+        end = _time.time() + 30
         while ev1.waits == 0 and _time.time() < end:   # the writer thread has switched to the instrumented event
             _time.sleep(0.005)
         if ev1.waits == 0:
